@@ -92,22 +92,41 @@ def audit_files():
 # scenarios and cases
 # ---------------------------------------------------------------------------
 
+SINGLE = [['methane'], ['ethane'], ['oxygen'], ['nitrogen']]
+
+
 def scenario_plan(ctx):
-    """(n_sol, n_inert, background, strip) per scenario; covers 1..5 classes, pure-inert, mixed, background on/off,
-    and — in EVERY run — scenarios whose first soluble class lists a tracked compound it is released without
-    (m0[j] == 0: it strips that gas from the plume water), alone and mixed with classes that dissolve the compound"""
-    base = [(1, 0, False), (1, 1, True), (2, 1, False), (0, 1, False), (3, 2, True)]
-    extra = [(2, 0, True), (1, 2, False), (2, 2, True), (1, 3, True), (3, 1, False), (0, 2, True), (1, 0, True),
-             (2, 3, False), (4, 1, True), (1, 4, False)]
+    """(n_sol, n_inert, background, strip, comp) per scenario; comp = 'single' (exactly ONE tracked compound), 'multi'
+    (>= 2) or None (no soluble class / strip scenarios).  EVERY run has: a single-compound soluble class alone and one
+    beside an inert class (one with, one without ambient background of the compound), an inert-only plume (no tracked
+    compound at all), 1..5 classes with >= 2 compounds, and the two scenarios whose first soluble class lists a
+    tracked compound it is released without (alone / mixed)."""
+    base = [(2, 1, False), (3, 2, True)]
+    extra = [(2, 0, True), (1, 2, False), (2, 2, True), (1, 3, True), (3, 1, False), (1, 0, True),
+             (2, 3, False), (4, 1, True), (1, 4, False), (1, 1, True), (1, 0, False)]
     r = ctx.rng
+    b = r.random() < 0.5
     if ctx.thorough:
-        plan = [t + (None,) for t in base + extra]
-        plan += [(1, 0, True, 'alone'), (1, 2, True, 'alone'), (2, 0, True, 'mixed'), (3, 1, True, 'mixed'),
-                 (2, 1, False, 'mixed')]
+        plan = [(1, 0, False, None, 'single'), (1, 0, True, None, 'single'), (1, 1, False, None, 'single'),
+                (1, 2, True, None, 'single'), (2, 1, True, None, 'single'),
+                (0, 1, False, None, None), (0, 2, True, None, None)]
+        plan += [t + (None, 'multi') for t in base + extra]
+        plan += [(1, 0, True, 'alone', None), (1, 2, True, 'alone', None), (2, 0, True, 'mixed', None), (3, 1, True, 'mixed', None),
+                 (2, 1, False, 'mixed', None)]
     else:
-        plan = [t + (None,) for t in (base[0], base[1], base[4], r.choice([base[2], base[3]] + extra))]
-        plan += [(1, r.choice([0, 1]), True, 'alone'), (r.choice([2, 3]), r.choice([0, 1]), True, 'mixed')]
+        plan = [(1, 0, b, None, 'single'), (1, r.choice([1, 2]), not b, None, 'single'),
+                (0, r.choice([1, 2]), r.random() < 0.5, None, None),
+                base[1] + (None, 'multi'), r.choice([base[0]] + extra) + (None, 'multi'),
+                (1, r.choice([0, 1]), True, 'alone', None), (r.choice([2, 3]), r.choice([0, 1]), True, 'mixed', None)]
     return plan
+
+
+def plan_composition(rng, comp):
+    if comp == 'single':
+        return list(rng.choice(SINGLE))
+    if comp == 'multi':
+        return list(rng.choice([c for c in S.COMPOSITIONS if len(c) >= 2]))
+    return None
 
 
 def draw_params(rng):
@@ -145,6 +164,14 @@ def make_cases(ctx, sc, sim, n):
     cases = []
     if not good:
         return cases
+    strip = sc.spec.get('strip')
+    alive = good
+    if strip:
+        # rows in which the stripping class still carries mass (a fully dissolved class exchanges nothing)
+        lay, _idiss = S.inner_layout(sc.particles, nchems)
+        l = lay[strip['class']]
+        m00 = float(np.sum(yis[good[0]][l['m0']:l['m0'] + l['nc']]))
+        alive = [k for k in good if np.sum(yis[k][l['m0']:l['m0'] + l['nc']]) > 1e-3 * m00] or good
     zmin_i, zmax_i = float(np.min(zi)), float(np.max(zi))
     have_outer = sc.nb_o is not None and len(zo) > 1 and np.any(yos[:, 0] < 0)
     H = sc.spec['profile']['H']
@@ -166,9 +193,8 @@ def make_cases(ctx, sc, sim, n):
             case.update({'kind': r.choice(['inner-absent-zeros', 'inner-absent-below']), 'z': z, 'yi': yi0,
                          'yo': draw_outer(r, sc, z, yis[k], nchems)})
         else:
-            k = r.choice(good)
+            k = r.choice(alive) if r.random() < 0.9 else r.choice(good)
             yi_state = S.perturb_inner(r, sc, yis[k], strength=r.choice([0., 0.3, 1., 1.]))
-            strip = sc.spec.get('strip')
             if strip:
                 # the plume water holds the compounds the stripping class was released without
                 for j in strip['zero']:
@@ -593,15 +619,16 @@ def probe_heterogeneous(ctx):
 def run(ctx, lean_ok):
     r = ctx.rng
     plan = scenario_plan(ctx)
-    per_scen = ctx.n(200, 1200)
+    per_scen = ctx.n(170, 900)
     records = []          # (sc, case, res)
     seen = set()
     nsim_ok = 0
     nclosure_nan = 0
     done = {k: 0 for k in KINDS}
+    nchem_done = {'nchems==0': 0, 'nchems==1': 0, 'nchems>=2': 0}
     nstrip = {'all': 0, 'alone': 0, 'mixed': 0, 'outer present': 0, 'outer absent': 0, 'background': 0}
-    for si, (n_sol, n_inert, bg, strip) in enumerate(plan):
-        spec = S.random_spec(r, n_sol, n_inert, bg, strip=strip)
+    for si, (n_sol, n_inert, bg, strip, comp) in enumerate(plan):
+        spec = S.random_spec(r, n_sol, n_inert, bg, composition=plan_composition(r, comp), strip=strip)
         sc = S.build(spec)
         ctx.count('scenario particles=%d' % (n_sol + n_inert))
         ctx.count('scenario background=%s' % bg)
@@ -615,7 +642,7 @@ def run(ctx, lean_ok):
                 break
             except Exception as e:       # a scenario the real model cannot integrate (C20's subject): draw another
                 ctx.count('scenario-simulation-failed:%s' % raise_site(e))
-                spec = S.random_spec(r, n_sol, n_inert, bg, strip=strip)
+                spec = S.random_spec(r, n_sol, n_inert, bg, composition=plan_composition(r, comp), strip=strip)
                 sc = S.build(spec)
         if sim is None:
             z0, y0 = S.initial_inner_state(sc)
@@ -659,6 +686,11 @@ def run(ctx, lean_ok):
             done[kind] += 1
             ctx.count('kind ' + kind)
             ctx.count('c1!=0' if res['pv'][0] != 0 else 'c1==0')
+            nch = len(sc.chem_names)
+            nck = 'nchems==0' if nch == 0 else ('nchems==1' if nch == 1 else 'nchems>=2')
+            nchem_done[nck] += 1
+            ctx.count('%s, %s, %s' % (nck, 'outer present' if res['y_o'][0] < 0 else 'outer absent',
+                                      'background' if any(c != 0 for c in res['oracle']['ca']) else 'no background'))
             rb = res['recB']
             ctx.count('outer present (Q_o<0)' if res['y_o'][0] < 0 else 'outer absent (Q_o>=0)')
             ctx.count('inner present (Q_i>0)' if res['y_i'][0] > 0 else 'inner absent (Q_i<=0)')
@@ -702,6 +734,18 @@ def run(ctx, lean_ok):
                not short, 'below the floor (done, floor): %r' % short)
     ctx.oblige('at least half of the %d scenarios were integrated by the real model' % len(plan),
                2 * nsim_ok >= len(plan), '%d of %d' % (nsim_ok, len(plan)))
+    ntot0 = len(records)
+    needc = {'nchems==1': 0.05, 'nchems==0': 0.03, 'nchems>=2': 0.30}
+    lowc = {k: (nchem_done[k], int(math.ceil(f * ntot0))) for k, f in needc.items() if nchem_done[k] < f * ntot0}
+    ctx.oblige('floor: completed state pairs with exactly ONE tracked compound >= 5%%, with none (inert-only plume) >= 3%%, with two or '
+               'more >= 30%% (of %d)' % ntot0, ntot0 > 0 and not lowc, 'below (have, need): %r' % lowc)
+    single = [(len(sc.particles) > 1, res['y_o'][0] < 0, any(c != 0 for c in res['oracle']['ca']))
+              for sc, _c, res in records if len(sc.chem_names) == 1 and res['ri'] is not None]
+    combos = {'alone': sum(1 for a, _o, _b in single if not a), 'beside other classes': sum(1 for a, _o, _b in single if a),
+              'outer present': sum(1 for _a, o, _b in single if o), 'outer absent': sum(1 for _a, o, _b in single if not o),
+              'background': sum(1 for _a, _o, bb in single if bb), 'no background': sum(1 for _a, _o, bb in single if not bb)}
+    ctx.oblige('single-compound state pairs cover: class alone / beside other classes, outer present / absent, with / without ambient '
+               'background (>= 10 each): %r' % combos, all(v >= 10 for v in combos.values()), '%r' % combos)
     ctx.oblige('at most 2%% of the generated state pairs skipped because a closure input (particle properties, Ep, Xi, Fb, alpha_s) '
                'is non-finite (%d generated)' % ctx.evaluations, nclosure_nan <= 0.02 * max(ctx.evaluations, 1), '%d skipped' % nclosure_nan)
     ntot = len(records)
